@@ -15,10 +15,20 @@ Text     == MT("text", "plain", "")
 
 (* part "select": every declared JSON-family entry accepts exactly the bodies carrying its own *)
 (* marker property, so which entry was selected is observable through the verdict.             *)
+(* An entry declared WITHOUT a schema ("bare") says nothing about the body: once selected, every body is accepted.     *)
+(* No body bytes: nothing is selected; the request fails exactly when the body is required, whatever the header says. *)
 SelectAccepts(c) ==
    IF c.empty THEN ~c.required
    ELSE LET sel == Select({c.decl[i] : i \in DOMAIN c.decl}, c.hdr) IN
-        ~IsNone(sel) /\ c.bodyKey = sel
+        ~IsNone(sel) /\ (c.bodyKey = sel \/ ("bare" \in DOMAIN c /\ c.bare = sel))
+
+(* more media types of the universe (round 6b) *)
+TextWild  == MT("text", "*", "")
+TextUtf8  == MT("text", "plain", "charset=utf-8")
+TextAscii == MT("text", "plain", "charset=ascii")
+Png       == MT("image", "png", "")
+Yaml      == MT("application", "yaml", "")
+Octet     == MT("application", "octet-stream", "")
 
 (* part "decode": one declared media type with schema S (or S2 / the text schema) *)
 TInt == [type |-> "integer"]
@@ -53,6 +63,15 @@ SN == [type |-> "object", nullable |-> TRUE] @@ Props
 S7 == [type |-> "object", required |-> <<"ro", "wo">>, pk |-> <<"n", "ro", "wo">>,
        ps |-> <<TInt, [type |-> "string", readOnly |-> TRUE], [type |-> "string", writeOnly |-> TRUE]>>]
 
+(* S8: an object-valued property (a multipart part that is itself a JSON document; a nested mapping of a YAML body) *)
+S8 == [type |-> "object", required |-> <<>>, pk |-> <<"n", "o", "s">>,
+       ps |-> <<TInt, [type |-> "object", required |-> <<"a">>, pk |-> <<"a", "b">>, ps |-> <<TInt, TInt>>], TStr>>]
+
+(* S9: the other primitive types (a boolean, a number that need not be integral) next to the integer *)
+TBool == [type |-> "boolean"]
+TNum  == [type |-> "number"]
+S9 == [type |-> "object", required |-> <<>>, pk |-> <<"b", "f", "n">>, ps |-> <<TBool, TNum, TInt>>]
+
 (* Schemas of a text/plain body (and of a multipart part decoded as plain text).  The value a plain-text body encodes is *)
 (* the string it carries, whatever the schema says -- in particular when the schema has NO "type" keyword (T1..T5): a   *)
 (* bare enum, length bounds, a pattern, nullable, a composition.  T6 (type: integer): the text is still a string, so    *)
@@ -75,6 +94,8 @@ Wrap(s, w) ==
      [] w = "oneOf"      -> [oneOf |-> <<s, [type |-> "boolean"]>>]
      [] w = "allOf"      -> [allOf |-> <<[type |-> "object"], s>>]
      [] w = "allOfT"     -> [type |-> "object", allOf |-> <<s>>]
+     [] w = "anyOfT"     -> [type |-> "object", anyOf |-> <<s>>]                        \* (typed at the top: the shape the form decoders ask for)
+     [] w = "oneOfT"     -> [type |-> "object", oneOf |-> <<s, [type |-> "boolean"]>>]
      [] w = "allOfAnyOf" -> [allOf |-> <<[anyOf |-> <<s>>]>>]
      [] w = "items"      -> [type |-> "array", items |-> s]
      [] w = "itemsAnyOf" -> [type |-> "array", items |-> [anyOf |-> <<s>>]]
@@ -82,12 +103,27 @@ Wrap(s, w) ==
      [] w = "propAnyOf"  -> [type |-> "object", pk |-> <<"in">>, ps |-> <<[anyOf |-> <<s, [type |-> "boolean"]>>]>>]
      [] OTHER -> s
 
-BaseSchemaOf(c) == IF c.family = "text" THEN TextSchemaOf(c.schema) ELSE IF c.schema = "SN" THEN SN
+BaseSchemaOf(c) == IF c.family \in {"text", "octet", "zip", "csv"} THEN TextSchemaOf(c.schema) ELSE IF c.schema = "SN" THEN SN
                ELSE CASE c.schema = "S1" -> S1 [] c.schema = "S3" -> S3 [] c.schema = "S4" -> S4 [] c.schema = "S4a" -> S4a
-                      [] c.schema = "S5" -> S5 [] c.schema = "S6" -> S6 [] c.schema = "S7" -> S7 [] OTHER -> S2
+                      [] c.schema = "S5" -> S5 [] c.schema = "S6" -> S6 [] c.schema = "S7" -> S7 [] c.schema = "S8" -> S8 [] c.schema = "S9" -> S9 [] OTHER -> S2
 SchemaOf(c) == IF "wrap" \in DOMAIN c THEN Wrap(BaseSchemaOf(c), c.wrap) ELSE BaseSchemaOf(c)
 
-DecodeAccepts(c) == Valid(SchemaOf(c), c.v, IF c.excludeRO THEN "asreq_noro" ELSE "asreq")
+(* the media type a decoder family is declared under and sent as *)
+BaseMT(c) == CASE c.family = "json" -> Json [] c.family = "form" -> Form [] c.family = "multipart" -> Multi
+               [] c.family = "yaml" -> Yaml [] c.family = "octet" -> Octet [] OTHER -> Text
+(* declPar / hdrPar: a parameter on the declared key / on the Content-Type header of a decode case.  The entry is      *)
+(* selected by the same precedence as everywhere (exact string, else without parameters); the decoder is the one of    *)
+(* the header's media type read without its parameters, so a charset parameter never changes what a body decodes to.   *)
+CtSelected(c) ==
+   "declPar" \notin DOMAIN c
+   \/ ~IsNone(Select({[BaseMT(c) EXCEPT !.par = c.declPar]}, [BaseMT(c) EXCEPT !.par = c.hdrPar]))
 
-Accepts(c) == IF c.part = "select" THEN SelectAccepts(c) ELSE DecodeAccepts(c)
+DecodeAccepts(c) == CtSelected(c) /\ Valid(SchemaOf(c), c.v, IF c.excludeRO THEN "asreq_noro" ELSE "asreq")
+
+(* part "malformed": the body text is not an encoding of ANY value in the syntax of its media type (truncated JSON,   *)
+(* JSON followed by more text, a bad percent escape, a multipart body without boundary / closing delimiter ...): there *)
+(* is no value that could satisfy the schema, so the request is rejected -- whatever the schema, even the empty one.    *)
+Accepts(c) == CASE c.part = "select" -> SelectAccepts(c)
+                [] c.part = "malformed" -> FALSE
+                [] OTHER -> DecodeAccepts(c)
 =============================================================================
